@@ -58,7 +58,7 @@ RULE = ("cases = (operation getitem|vindex|blocks, shape, chunking, dtype, encod
         ">= 2 chunks; distinct = distinct (op, shape, chunks, dtype, index).")
 ASSUMPTIONS = ["NumPy 2.x indexing defines the expected result", "sync scheduler (threads for a tenth)",
                "vindex axis order as documented in Array.vindex"]
-BUDGET = {"quick": 90, "thorough": 900}
+BUDGET = {"quick": 200, "thorough": 900}
 FLOORS = {"quick": {"evaluations": 1, "distinct_nontrivial": 1, "counters": {}, "max_skipped_fraction": 0.35},
           "thorough": {"evaluations": 1, "distinct_nontrivial": 1, "counters": {}, "max_skipped_fraction": 0.35}}
 EXHAUSTIVE_SPACE = {
@@ -115,7 +115,7 @@ def cases(tier, seed):
         d = {"op": op, "shape": list(shape), "chunks": [list(c) for c in chunks], "dtype": rng.choice(DTYPES),
              "threads": rng.random() < 0.1, "bare": False}
         if op == "getitem":
-            d["index"], d["bare"] = IX.rand_index(rng, shape, "get")
+            d["index"], d["bare"] = IX.rand_index(rng, shape, "get", chunks)
         elif op == "vindex":
             if nd == 0:
                 continue
@@ -168,6 +168,10 @@ def evaluate(op, shape, chunks, dtype, enc, bare, threads=False, blockcheck=True
                 e = IX.np_vindex(x, nidx)
             else:
                 e, exp_chunks = IX.blocks_reference(x, chunks, nidx)
+                if any(len(c) == 0 for c in exp_chunks):
+                    # Calibration: a selection of zero blocks along an axis has no dask representation (chunks
+                    # tuples cannot be empty; dask raises ValueError) - outside the domain of blocks[].
+                    return Outcome("reject", msg="blocks[]: empty block selection has no dask-array representation")
         except (IndexError, ValueError, TypeError) as ex:
             out = Outcome("reject", msg="numpy: %s: %s" % (type(ex).__name__, ex))
             try:
@@ -234,6 +238,16 @@ def run_case(case, ctx):
     ctx.sig = (op, case["shape"], case["chunks"], case["dtype"], enc, bare)
     ctx.nontrivial = A.has_split(chunks)
     out = evaluate(op, shape, chunks, case["dtype"], enc, bare, threads=case.get("threads", False))
+    nfancy = sum(1 for e in enc if e["k"] in ("ilist", "blist"))
+    if op == "getitem" and nfancy >= 2 and out.status != "ok" and out.status != "reject":
+        # Calibration: "slicing with lists in multiple axes" is documented as unsupported (array-slicing.rst); dask
+        # raises NotImplementedError for most combinations but computes an orthogonal selection (or fails) for some
+        # (dask boolean arrays are filtered one axis at a time).  Outside the domain: side statistic only.
+        ctx.count("dask_not_implemented")
+        if out.status != "unsupported":
+            ctx.count("two_array_indexers_not_rejected_by_dask")
+        ctx.unsupported("lists/arrays in multiple axes (documented as unsupported): " + (out.msg or out.symptom or ""))
+        return
     if out.status == "reject":
         ctx.count("numpy_rejected")
         if out.accepted:
@@ -257,21 +271,8 @@ def run_case(case, ctx):
                       "lazy_chunks": str(out.lazy[1])}
         return
     # ---- failure: shrink, label ----------------------------------------------------------------
-    sym = out.symptom
-
-    def same(enc2, shape2, chunks2):
-        o = evaluate(op, shape2, chunks2, case["dtype"], enc2, bare and len(enc2) == 1, threads=False)
-        return o.status in ("exc", "mismatch") and o.symptom == sym
-
-    if op == "blocks":
-        enc_m, shape_m, chunks_m, split, zero = enc, shape, chunks, A.has_split(chunks), False
-        feat = "+".join(IX.tokens(enc, tuple(len(c) for c in chunks))) or "full-slices"
-    else:
-        enc_m, shape_m, chunks_m, split, zero = IX.shrink(enc, shape, chunks, same)
-        feat = IX.label_features(enc_m, shape_m, split, zero)
-    label = "%s:%s:%s" % (op, feat, sym)
-    detail = {"index": IX.show(enc), "shape": list(shape), "chunks": case["chunks"],
-              "minimal": {"index": IX.show(enc_m), "shape": list(shape_m), "chunks": [list(c) for c in chunks_m]}}
+    label, detail = classify(op, shape, chunks, case["dtype"], enc, bare, out.symptom)
+    detail.update({"index": IX.show(enc), "shape": list(shape), "chunks": case["chunks"]})
     if out.status == "exc":
         import traceback
 
@@ -279,3 +280,48 @@ def run_case(case, ctx):
         ctx.violation(label, out.msg, traceback=tb, **detail)
     else:
         ctx.violation(label, out.msg, lazy=str(out.lazy), **detail)
+
+
+MISMATCH_SYMPTOMS = ("shape", "dtype", "values", "lazy-shape", "lazy-dtype", "lazy-chunks", "block-shape", "block-placement",
+                     "array-axis-not-moved-first", "result-not-a-dask-array")
+
+
+def classify(op, shape, chunks, dtype, enc, bare, sym):
+    """Shrink the failing (index, shape, chunks) and build the mechanism label.
+
+    Phase 1 keeps the symptom.  If the symptom is an exception (whose type/location depends on what else is in
+    the index) phase 2 continues to any smaller failing input and the label takes the symptom of that minimal
+    input.  A remaining slice entry that fails on its own under plain getitem relabels vindex/blocks failures
+    to the getitem mechanism."""
+    fixed = op == "blocks"
+    space = tuple(len(c) for c in chunks) if fixed else tuple(shape)
+
+    def probe(enc2, shape2, chunks2):
+        if fixed:
+            shape2, chunks2 = shape, chunks
+        o = evaluate(op, shape2, chunks2, dtype, enc2, bare and len(enc2) == 1, threads=False)
+        return o.symptom if o.status in ("exc", "mismatch") else None
+
+    enc_m, shape_m, chunks_m, sym_m = IX.shrink(enc, space, chunks, probe, sym, fixed_layout=fixed)
+    if sym_m not in MISMATCH_SYMPTOMS:
+        enc_m, shape_m, chunks_m, sym_m = IX.shrink(enc_m, shape_m, chunks_m, probe, sym_m, fixed_layout=fixed,
+                                                    accept=lambda s: s not in MISMATCH_SYMPTOMS)
+    op_m = op
+    if op != "getitem":
+        axes = IX.axis_of_entries(enc_m, len(shape_m))
+        for e, ax in zip(enc_m, axes):
+            if e["k"] == "slice" and not IX.is_full(e) and ax is not None and ax < len(shape_m):
+                n = shape_m[ax]
+                o = evaluate("getitem", (n,), ((n,),), dtype, [e], True)
+                if o.status in ("exc", "mismatch") and o.symptom == sym_m:
+                    op_m, enc_m, shape_m, chunks_m, fixed = "getitem", [e], (n,), ((n,),), False
+                    break
+    if sym_m == "array-axis-not-moved-first":
+        feat = "int&array-index-separated"
+    else:
+        feat = IX.label_features(enc_m, shape_m, chunks_m, layout=not fixed)
+    label = "%s:%s:%s" % (op_m, feat, sym_m)
+    minimal = {"op": op_m, "index": IX.show(enc_m), "chunks": [list(c) for c in chunks_m]}
+    if not fixed:
+        minimal["shape"] = list(shape_m)
+    return label, {"minimal": minimal}
